@@ -30,7 +30,7 @@ FLOORS = {
                  'realisation:api': 140000, 'realisation:but': 100000, 'hygiene_cases': 5000,
                  'disjunction_cases': 20000},
 }
-BUDGET = {'quick': {'grid_sample': 6000, 'random': 3500, 'hygiene': 40},
+BUDGET = {'quick': {'grid_sample': 15000, 'random': 8000, 'hygiene': 60},
           'thorough': {'grid_sample': None, 'random': 60000, 'hygiene': 400}}
 TIMEOUT = {'quick': 900, 'thorough': 7200}
 TOPICS = ('a', 'b', 'c', 'd', 'e', 'g', 'h', 'k')
